@@ -6,11 +6,11 @@ import Mathlib.Analysis.SpecialFunctions.Pow.Real
 
   FULL statement: `C15_statement` (over the reals).  PROVED: `C15_partial` — the whole `powi` clause (exact rational error bound for
   `n ≥ 2`, truncated reciprocal for `n < 0`), the conventions `0^y = 0`, `x^0 = 1`, `x^1 = x` of pow and powi, and totality (C12).
-  NOT PROVED: the error bounds of `exp` and `pow`.  For `exp` the full statement is FALSE on the current tree: KNOWN FINDING D10
-  (known_findings.txt ids D10-exp / D10-pow): the Maclaurin series is cut after `frac_nbits` terms with no argument reduction, e.g.
-  `exp::<I32F32>(20)` is off by 0.8 % (allowed 2^-20).  The check replays that region on every run, prints KNOWN-FINDING, and reports any
-  oracle-judged failure OUTSIDE the finding's region as a violation.  (A formal `C15_counterexample` would need a certified enclosure of
-  `e^20`; it is not attempted — the witness is replayed against the implementation instead.)
+  The exp clause is FALSE on the current tree for large operands — KNOWN FINDING D10 (known_findings.txt ids D10-exp / D10-pow): the
+  Maclaurin series is cut after `frac_nbits` terms with no argument reduction, e.g. `exp::<I32F32>(20)` is off by 0.8 % (allowed 2^-20).
+  SfxProps/C15Acc.lean proves both sides: `statement_false : ¬ C15_statement` (formal counterexample at that operand) and
+  `exp_holds_le_four` (the exp clause for |x| ≤ 4).  The check replays the finding's region on every run, prints KNOWN-FINDING, and reports
+  any oracle-judged failure OUTSIDE that region as a violation.  NOT PROVED: the pow clause.
 -/
 namespace Sfx.C15
 open Sfx.C12
